@@ -9,7 +9,7 @@ import sys; sys.path.insert(0,'/verif'); import vbuild; from props_table import 
 P=PROPS['$P']; vbuild.build_binary(P['bin'],P['sources'],P.get('flavour','rc'),unit_objs=P.get('unit_objs',()),images=P.get('images',()),rapidcheck=True)" 2>&1 | grep -E "error|Error" | head -20; exit 2; }
 mkdir -p /tmp/w/$b.$seed; cd /tmp/w/$b.$seed
 start=$(date +%s)
-ASAN_OPTIONS=detect_leaks=0 $exe search --seed $seed --cases $cases --out out.json --faildir . --budget $budget > log 2>&1
+ASAN_OPTIONS=detect_leaks=0:quarantine_size_mb=16:detect_stack_use_after_return=0:malloc_context_size=0 $exe search --seed $seed --cases $cases --out out.json --faildir . --budget $budget > log 2>&1
 echo "exit=$? wall=$(( $(date +%s) - start ))s"
 grep -E "SUMMARY|runtime error|SEARCH-" log | cut -c1-400 | head -5
 grep -E "^\s+#[0-9]+ " log | grep -v "rc::\|std::\|rapidcheck\|harness_main\|libc\|_start" | cut -c1-200 | head -8
